@@ -3,7 +3,8 @@
    Spec/Poly.v, which is proved sound here; the glue around sympy is modelled (Model/SymbolicGlue.v) and proved.
    NOT proved: that the simplifier is right on inputs that were not run (that would be a theorem about sympy). *)
 From Coq Require Import List String ZArith QArith Qabs.
-From Verif Require Import Base.Result Spec.Poly Model.SymbolicGlue Proofs.C13_Poly Proofs.C13_Glue.
+From Verif Require Import Base.Result Base.Str Base.Sexp Model.Tokenizer Spec.Poly Model.SymbolicGlue Proofs.C13_Poly Proofs.C13_Glue
+  Proofs.C13_Readback.
 Import ListNotations.
 Open Scope Q_scope.
 
@@ -60,6 +61,19 @@ Theorem C13_omitted_condition_implied : forall d hs conds out,
     forall rho, cdefined rho c -> sat_all rho (if is_eq c then [] else filter is_eq conds) -> sat rho c.
 Proof. exact check_pre_omitted. Qed.
 
+(* the numeric conditions of an (or ...) node (Precondition.print on a disjunction, also under forall): if check_or accepts
+   there are mid conditions - one per validated pair - such that, wherever no divisor vanishes, SOME input condition holds
+   exactly when SOME mid condition holds; every mid is printed (rounded) as an output condition and every output condition
+   is such a rounding.  Nothing is eliminated and nothing omitted (before D21p the library did both). *)
+Theorem C13_disjunction_sound : forall d hs conds out,
+  check_or d hs conds out = true ->
+  exists mid : list mcond,
+    (forall rho, defined_all rho conds -> Forall (mdefined rho) mid ->
+                 (Exists (sat rho) conds <-> Exists (msat rho) mid)) /\
+    (forall m, In m mid -> exists o, In o out /\ rounded d m o) /\
+    (forall o, In o out -> exists m, In m mid /\ rounded d m o).
+Proof. exact check_or_sound. Qed.
+
 (* a bare expression (simplify_complex_numeric_expression) *)
 Theorem C13_expression_sound : forall d hs e o,
   check_expr d hs e o = true ->
@@ -101,6 +115,29 @@ Theorem C13_glue : forall d flag m t r,
     end.
 Proof. exact glue_sound. Qed.
 
+(* THE GLUE DOWN TO THE TEXT: for every tree the printer accepts, with a symbol table whose function texts have the shape
+   "(" name blanks/arguments ")" (fl_ok_b; proved for the tables transform_expression builds, C13_symbol_table_shape, and
+   checked on every table of a run), the printed TEXT is read by the tokenizer model (C11) and the restricted grammar
+   expr_of_sexp - numbers, functions, binary + - * / only - as an expression e that is a structural d-decimal rounding of
+   an expression with exactly the value of the tree, every function named by its canonical text [canon]. *)
+Theorem C13_glue_readback : forall d flag m t p,
+  conv d flag m t = Ok (Some p) -> Forall fl_ok (map fst m) ->
+  exists (s : sexp) (e h : expr),
+    parse MStr (s2t (show_pexpr p)) = Ok s /\ expr_of_sexp s = Some e /\
+    eround (tol_of d) (ren canon h) e /\
+    (wf_tree t = true -> forall rho, eval rho (ren canon h) == seval d m (fun v => rho (canon v)) t).
+Proof. exact glue_readback_sound. Qed.
+
+(* a printed number is read back exactly (decimal printing / reading round trip, any magnitude, any number of decimals) *)
+Theorem C13_printed_number_read_back : forall x, pnum_ok x -> exists q, read_number (show_pnum x) = Some q /\ q == pnum_value x.
+Proof. exact read_show_pnum. Qed.
+
+(* the dictionary transform_expression builds - given entries of the right shape plus the function applications its regular
+   expression finds in the text - has keys of the right shape *)
+Theorem C13_symbol_table_shape : forall given text m,
+  Forall fl_ok (map fst given) -> transform_map given (fluents_in text) = Ok m -> Forall fl_ok (map fst m).
+Proof. exact transform_map_ok. Qed.
+
 Theorem C13_glue_text : forall d flag m t s,
   convert_expr_to_pddl d flag m t = Ok s ->
   exists r, conv d flag m t = Ok r /\ s = match r with Some p => show_pexpr p | None => "0"%string end.
@@ -141,6 +178,10 @@ Proof. exact lookup_sym_injective. Qed.
 Print Assumptions C13_norm_sound.
 Print Assumptions C13_glue.
 Print Assumptions C13_glue_text.
+Print Assumptions C13_glue_readback.
+Print Assumptions C13_printed_number_read_back.
+Print Assumptions C13_symbol_table_shape.
+Print Assumptions C13_disjunction_sound.
 Print Assumptions C13_number_rounding.
 Print Assumptions C13_rational_rounding.
 Print Assumptions C13_float_reference_close.
